@@ -33,12 +33,17 @@ def server_script(rng, method, status, code, atyp):
     elif atyp == 4:
         rep += rng.bytes(16)
     elif atyp == 3:
-        n = rng.choice([0, 1, 9, 255])
+        n = rng.choice([0, 1, 2, 9, 30, 255])
         rep += [n] + [97 + rng.below(26) for _ in range(n)]
     else:
         rep += rng.bytes(4)
     rep += rng.bytes(2)
     return s + rep
+
+
+def s_reply_at(s):
+    """index of the reply in a script made by server_script"""
+    return 4 if s[1] in (2, 0x80) else 2
 
 
 def utf8_string(rng, n):
@@ -65,11 +70,11 @@ def gen_cases(rng, ctx):
     thorough = ctx["tier"] == "thorough" or ctx.get("widened")
     cases = []
 
-    def mk(ak, a, b, dk, dest, port, segs, kind, nontrivial=True):
+    def mk(ak, a, b, dk, dest, port, segs, kind, nontrivial=True, tail=None):
         toks = [[ak, dk, port], a, b, dest] + segs
         l = line("c15_connect", toks)
         c = Case(l, l, (lambda impl, ak=ak: "c15_wellformed %d %s" % (ak, impl.split()[1] if len(impl.split()) > 1 else "-")),
-                 kind=kind, nontrivial=nontrivial, meta={"ak": ak})
+                 kind=kind, nontrivial=nontrivial, meta={"ak": ak, "tail": tail})
         cases.append(c)
 
     def cuts(s, mode, rng):
@@ -113,7 +118,15 @@ def gen_cases(rng, ctx):
         if rng.chance(1, 20):
             s[0] = 4
         mode = i % 3
-        mk(ak, a, b, dk, dest, port, cuts(s, mode, rng), "dialogue")
+        # the server's complete script, followed by the first bytes of the tunnelled connection
+        tail = [0xA0 + k for k in range(rng.choice([0, 0, 1, 3, 6]))]
+        mk(ak, a, b, dk, dest, port, cuts(s + tail, mode, rng), "dialogue", tail=tail)
+        if atyp == 3 and i % 4 == 0:
+            # every cut of the stream from the reply on: the bound domain name arrives in two reads
+            r0 = s_reply_at(s)
+            for c in range(r0 + 1, len(s) + 1):
+                st = s + tail
+                mk(ak, a, b, dk, dest, port, [st[:c], st[c:]] if c < len(st) else [st], "dialogue", tail=tail)
         if i % 10 == 0:
             for k in range(len(s) + 1):
                 mk(ak, a, b, dk, dest, port, [s[:k]] if k else [], "truncated", nontrivial=k >= 2)
@@ -182,6 +195,12 @@ def judge(case, impl, model, spec, ctx):
             ok = ok and server[i:i + 3] == [5, 0, 0]
             if not ok:
                 out.append(("violation", "a tunnel was reported established although the server did not report success"))
+            tail = case.meta.get("tail")
+            if ok and tail is not None:
+                left = untok(impl.split()[2]) if len(impl.split()) > 2 else []
+                if left != tail:
+                    out.append(("violation", "after the server's success reply the tunnelled stream starts with %s, but the server sent %s "
+                                             "after its reply: reply bytes were mis-framed" % (left[:12], tail)))
     if case.kind == "make-auth" and case.meta["r"] >= 4:
         t = impl.split()
         u, p = case.meta["u"], case.meta["p"]
